@@ -210,14 +210,20 @@ func (s *store) persistBlobSize(key string, sizeBytes uint64) error {
 	return nil
 }
 
+// hasFreeSpace reports whether `space` more bytes fit within capacity.
+// Written so that size+space cannot wrap around uint64 (e.g. on a size of 2^64-1).
+func (s *store) hasFreeSpace(space uint64) bool {
+	return space <= s.capacity && s.size <= s.capacity-space
+}
+
 func (s *store) ensureFreeSpace(space uint64) error {
-	if s.size+space <= s.capacity {
+	if s.hasFreeSpace(space) {
 		return nil
 	}
 
 	// TODO - benchmark and consider whether async eviction makes more sense.
 	startTime := time.Now()
-	for s.size+space > s.capacity {
+	for !s.hasFreeSpace(space) {
 		if s.evictQueue.Len() == 0 {
 			s.log.With(
 				"unevictable_bytes", s.size,
